@@ -98,7 +98,7 @@ func (l *lexer) run() {
 	defer func() {
 		close(l.token)
 
-		if e := recover(); e != nil {
+		if e := recover(); e != nil && e != bailout {
 			// re-panic
 			panic(e)
 		}
@@ -351,8 +351,7 @@ func (l *lexer) emit(typ int) {
 	select {
 	case l.token <- tok:
 	case <-l.cancel:
-		// bailout
-		panic(nil)
+		panic(bailout)
 	}
 }
 
@@ -386,6 +385,9 @@ func (l *lexer) Error(s string) {
 		close(l.cancel)
 	}
 }
+
+// bailout is the panic value used to unwind the lexer goroutine.
+var bailout = new(struct{})
 
 type action func() action
 
